@@ -14,7 +14,7 @@ FNS = 'http://foreign.example/ns'
 NASTY = ['a', ' ', '  ', ' a', 'a ', ' a ', '\n', 'a\nb', '\r', 'a\rb', '\r\n', 'a\r\nb', '\n\r', '\t', 'a\tb', '\u0085', 'a\u0085b',
          ' ', ' ', '<', '>', '&', '&amp;', '&#13;', '&lt;', '<![CDATA[x]]>', ']]>', '"', "'", '"\'', '<a b="c">', '</p>',
          '\U0001F600', '\U0010FFFF', '�', '퟿', '', 'é', '​', '﻿', 'a\u0000b'.replace('\u0000', ''),
-         ' \n ', '\n\n', 'x' * 300, '\t\n\r ', '&#x41;', '%', '\\', '{', '$', 'é', 'ÿ', '\x7f', '\x80', '\x9f']
+         ' \n ', '\n\n', 'a\n\nb', 'a\n \nb', 'x\n\t\ny', 'x' * 300, '\t\n\r ', '&#x41;', '%', '\\', '{', '$', 'é', 'ÿ', '\x7f', '\x80', '\x9f']
 TYPES = ['ta', 'tb']
 SOURCES = ['/a/', '/b/']
 REPRS = ['plain', 'element', 'parsed']
@@ -180,6 +180,76 @@ def doc_shape(data):
     return out
 
 
+def parse_full(data):
+    """(error, event views, ontology object) of a document read by a validating pull parser."""
+    from edxml import EDXMLPullParser
+    from edxml.error import EDXMLError
+    events = []
+
+    class P(EDXMLPullParser):
+        def _parsed_event(self, event):
+            events.append(gen.event_view(event))
+    p = P(validate=True)
+    err = None
+    try:
+        p.parse(io.BytesIO(data))
+    except EDXMLError as ex:
+        err = type(ex).__name__
+    except Exception as ex:
+        err = 'foreign:' + type(ex).__name__
+    return err, events, p.get_ontology()
+
+
+def ontology_text(o):
+    from lxml import etree
+    return None if o is None else etree.tostring(o.generate_xml()).decode()
+
+
+def run_cli_case(case):
+    """The documents of two writer sessions through the pass-through command line tools."""
+    import os
+    import shutil
+    import tempfile
+    from edxml.ontology import Ontology
+    from vf.cli import run_cli
+    docs = [write_script(sc, case['pretty'])[0] for sc in case['scripts']]
+    parsed = [parse_full(d) for d in docs]
+    tmp = tempfile.mkdtemp(prefix='vf-cli-')
+    try:
+        names = []
+        for i, d in enumerate(docs):
+            names.append(os.path.join(tmp, 'in%d.edxml' % i))
+            with open(names[-1], 'wb') as f:
+                f.write(d)
+        out = {}
+        # edxml-cat: both documents, one after the other
+        data, outcome = run_cli('edxml_cat', ['-f', names[0], '-f', names[1]])
+        err, events, o = parse_full(data) if outcome is None else (None, None, None)
+        want_o = Ontology()
+        for _e, _ev, po in parsed:
+            if po is not None:
+                want_o.update(po)
+        out['cat'] = {'outcome': outcome, 'parse': err, 'events_same': events == parsed[0][1] + parsed[1][1],
+                      'ontology_same': ontology_text(o) == ontology_text(want_o) if o is not None else not any(p[2] is not None for p in parsed)}
+        # edxml-filter without criteria and edxml-replay at full speed: the first document as it is
+        for tool, argv in (('edxml_filter', ['-f', names[0]]), ('edxml_replay', ['-f', names[0], '-s', '1000000'])):
+            data, outcome = run_cli(tool, argv)
+            err, events, o = parse_full(data) if outcome is None else (None, None, None)
+            out[tool[6:]] = {'outcome': outcome, 'parse': err, 'events_same': events == parsed[0][1],
+                             'ontology_same': ontology_text(o) == ontology_text(parsed[0][2])}
+        # edxml-filter with a criterion: only the events of type ta, and an ontology without the other event types
+        data, outcome = run_cli('edxml_filter', ['-f', names[0], '-e', '^ta$'])
+        err, events, o = parse_full(data) if outcome is None else (None, None, None)
+        want_types = [t for t in (parsed[0][2].get_event_type_names() if parsed[0][2] is not None else []) if t == 'ta']
+        out['filter_ta'] = {'outcome': outcome, 'parse': err, 'events_same': events == [e for e in parsed[0][1] if e['type'] == 'ta'],
+                            'ontology_same': (sorted(o.get_event_type_names()) == want_types and
+                                              sorted(o.get_event_sources()) == sorted(parsed[0][2].get_event_sources()))
+                            if o is not None and parsed[0][2] is not None else (o is None) == (parsed[0][2] is None)}
+        return out
+    finally:
+        shutil.rmtree(tmp, ignore_errors=True)
+
+
 def expected_view(op):
     ev = event_spec(op)
     return {'type': ev['type'], 'source': ev['source'], 'props': sorted([k, sorted(set(v))] for k, v in ev['props'] if v),
@@ -241,6 +311,19 @@ class C02(Property):
                 yield {'kind': 'text', 'values': vals, 'rep': rng.choice(REPRS), 'pretty': rng.random() < 0.5}
         for _ in range(150 if tier == 'quick' else 3000):
             yield {'kind': 'session', 'script': gen_script(rng, rng.randint(2, 12)), 'pretty': rng.random() < 0.5}
+        for _ in range(30 if tier == 'quick' else 600):
+            # two documents for the pass-through command line tools (edxml-cat, edxml-filter, edxml-replay); the second one
+            # often ends with an ontology element that no event follows
+            s1, s2 = gen_script(rng, rng.randint(2, 10)), gen_script(rng, rng.randint(1, 6))
+            if rng.random() < 0.5:
+                # a source that is defined in mid stream, by a small ontology update, and used right away
+                idx = max([op['idx'] for op in s1 if 'idx' in op] + [0])
+                s1 = [{'k': 'ont', 'types': ['ta', 'tb'], 'sources': ['/a/'], 'ok': True}] + s1 + [
+                    {'k': 'ont', 'types': [], 'sources': ['/b/'], 'ok': True},
+                    {'k': 'event', 'idx': idx + 1, 'type': 'ta', 'source': '/b/', 'gate': True, 'values': ['late'], 'rep': rng.choice(REPRS)}]
+            if rng.random() < 0.5:
+                s2.append({'k': 'ont', 'types': rng.sample(TYPES, rng.randint(0, 2)), 'sources': rng.sample(SOURCES, rng.randint(1, 2)), 'ok': True})
+            yield {'kind': 'cli', 'scripts': [s1, s2], 'pretty': rng.random() < 0.5}
 
     # -- implementation
     def observe(self, case):
@@ -268,6 +351,8 @@ class C02(Property):
                             'attBack': back['atts'][0][1][0][1] if back and back['atts'] else None,
                             'attrBack': back['foreign'][0][1] if back and back['foreign'] else None})
             return {'values': out}
+        if case['kind'] == 'cli':
+            return run_cli_case(case)
         data, verdicts = write_script(case['script'], case['pretty'])
         err, events, ox, foreign = parse_doc(data)
         obs = {'verdicts': verdicts, 'parseErr': err, 'delivered': [e for e in events], 'foreign': foreign, 'ontology': ox}
@@ -285,6 +370,8 @@ class C02(Property):
 
     # -- model
     def requests(self, case):
+        if case['kind'] == 'cli':
+            return []
         if case['kind'] == 'text':
             return [{'op': 'xmlesc', 'values': case['values']}]
         ops = []
@@ -298,6 +385,9 @@ class C02(Property):
         return [{'op': 'wstream', 'validate': True, 'ops': ops}]
 
     def predict(self, case, replies):
+        if case['kind'] == 'cli':
+            ok = {'outcome': None, 'parse': None, 'events_same': True, 'ontology_same': True}
+            return {'cat': dict(ok), 'filter': dict(ok), 'replay': dict(ok), 'filter_ta': dict(ok)}
         if case['kind'] == 'text':
             out = []
             for v, r in zip(case['values'], replies[0]['values']):
@@ -314,12 +404,27 @@ class C02(Property):
                 'filterShape': [r['filter'], r['filter2']]}
 
     def fill_undecided(self, case, obs, pred):
+        if case['kind'] == 'cli':
+            return pred
         if case['kind'] == 'session':
             pred['ontology'] = obs['ontology']
         return pred
 
     # -- oracle
     def oracle(self, case, obs):
+        if case['kind'] == 'cli':
+            for tool in ('cat', 'filter', 'replay', 'filter_ta'):
+                r = obs[tool]
+                what = 'edxml-%s on the output of a validating writer' % {'filter_ta': 'filter --event-type ^ta$'}.get(tool, tool)
+                if r['outcome'] is not None:
+                    return '%s failed: %s' % (what, r['outcome'])
+                if r['parse'] is not None:
+                    return '%s: a validating parser rejects its output: %s' % (what, r['parse'])
+                if not r['events_same']:
+                    return '%s: the events in its output differ from the events of its input' % what
+                if not r['ontology_same']:
+                    return '%s: the ontology in its output differs from the ontology of its input' % what
+            return None
         if case['kind'] == 'text':
             for v, o in zip(case['values'], obs['values']):
                 what = '%s event, pretty_print=%s, value %r' % (case['rep'], case['pretty'], v)
@@ -369,6 +474,13 @@ class C02(Property):
             s = case['script']
             for i in range(len(s) - 1, 0, -1):
                 yield dict(case, script=s[:i] + s[i + 1:])
+        elif case['kind'] == 'cli':
+            for k in (0, 1):
+                sc = case['scripts'][k]
+                for i in range(len(sc) - 1, 0, -1):
+                    scripts = list(case['scripts'])
+                    scripts[k] = sc[:i] + sc[i + 1:]
+                    yield dict(case, scripts=scripts)
         else:
             vs = case['values']
             for i in range(len(vs)):
@@ -376,6 +488,8 @@ class C02(Property):
                     yield dict(case, values=vs[:i] + vs[i + 1:])
 
     def nontrivial_obs(self, case, obs):
+        if case['kind'] == 'cli':
+            return json.dumps(case, sort_keys=True)
         if case['kind'] != 'session' or not isinstance(obs, dict) or 'verdicts' not in obs:
             return None
         seen_ont = 0
@@ -389,6 +503,8 @@ class C02(Property):
     def sample_view(self, case):
         if case['kind'] == 'text':
             return case
+        if case['kind'] == 'cli':
+            return {'kind': 'cli', 'calls': [[op['k'] for op in sc] for sc in case['scripts']]}
         return {'kind': 'session', 'calls': [op['k'] for op in case['script']]}
 
 
